@@ -105,6 +105,10 @@ pub fn emit_violation(v: &Violation) -> String {
     p
 }
 
+pub fn violations_emitted() -> usize {
+    VIOLATION_SEQ.load(Ordering::SeqCst)
+}
+
 pub fn stopped() -> bool {
     STOP.load(Ordering::Relaxed)
 }
